@@ -56,6 +56,15 @@ func rReach(edges []rEdge, u uint64, d graph.Direction) map[uint64]bool {
 				next = e.e
 			case d == graph.DirectionInbound && e.e == x:
 				next = e.s
+			case d == graph.DirectionBoth && (e.s == x || e.e == x):
+				// undirected: both endpoints of an edge at x are neighbours
+				for _, nb := range []uint64{e.s, e.e} {
+					if !seen[nb] {
+						seen[nb] = true
+						work = append(work, nb)
+					}
+				}
+				continue
 			default:
 				continue
 			}
@@ -126,13 +135,9 @@ func TestVerifBoundedReach(t *testing.T) {
 		}
 	}
 	ctx := context.Background()
-	for mask := 0; mask < 1<<uint(len(pairs)); mask++ {
-		var edges []rEdge
-		for i, p := range pairs {
-			if mask&(1<<uint(i)) != 0 {
-				edges = append(edges, p)
-			}
-		}
+	// one graph: SCC partition, component graph, and every query sequence under every capacity
+	var checkGraph func(ids []uint64, edges []rEdge, capacities []int, seqs [][]rQuery)
+	checkGraph = func(ids []uint64, edges []rEdge, capacities []int, seqs [][]rQuery) {
 		graphs++
 		b := container.NewCSRDigraphBuilder()
 		for _, id := range ids {
@@ -166,8 +171,8 @@ func TestVerifBoundedReach(t *testing.T) {
 		for _, c := range comps {
 			total += c.Cardinality()
 		}
-		if total != uint64(n) {
-			fail("scc: components hold %d members for %d nodes edges=%v", total, n, edges)
+		if total != uint64(len(ids)) {
+			fail("scc: components hold %d members for %d nodes edges=%v", total, len(ids), edges)
 		}
 		// component graph is acyclic: no component reaches another that reaches it back
 		cg := NewComponentGraph(ctx, dg)
@@ -184,6 +189,18 @@ func TestVerifBoundedReach(t *testing.T) {
 				rc := NewReachabilityCache(ctx, dg, capacity)
 				for qi, qd := range seq {
 					q, d := qd.node, qd.dir
+					if d == graph.DirectionBoth {
+						// the reach-set query is made for its effect on the caches only (what set it returns for this mode is
+						// not specified); can-reach in this mode is judged against undirected search
+						rc.ReachOfComponentContainingMember(q, d)
+						wantBoth := rReach(edges, q, d)
+						for _, target := range ids {
+							if got := rc.CanReach(q, target, d); got != wantBoth[target] {
+								fail("CanReach(%d,%d,both)=%v want %v (undirected search) edges=%v", q, target, got, wantBoth[target], edges)
+							}
+						}
+						continue
+					}
 					want := rReach(edges, q, d)
 					got := rc.ReachOfComponentContainingMember(q, d).Slice()
 					if !rEq(got, want) {
@@ -223,7 +240,81 @@ func TestVerifBoundedReach(t *testing.T) {
 			}
 		}
 	}
-	res := map[string]any{"name": "reach", "bound": fmt.Sprintf("all digraphs (self loops: %v) on %d nodes, query sequences up to length %d, capacities %v", selfLoops, n, seqLen, capacities), "graphs": graphs, "cases": cases, "exhaustive": true, "failures": failures}
+	for mask := 0; mask < 1<<uint(len(pairs)); mask++ {
+		var edges []rEdge
+		for i, p := range pairs {
+			if mask&(1<<uint(i)) != 0 {
+				edges = append(edges, p)
+			}
+		}
+		checkGraph(ids, edges, capacities, seqs)
+	}
+	// FAMILY "both-history": the third mode of the API (DirectionBoth) as an EARLIER query of a history. What such a query
+	// itself returns is not part of the statement ("both directions" are outbound and inbound); what the statement says is
+	// that the outbound and inbound answers do not depend on the queries made before. Every sequence of a DirectionBoth
+	// query followed by one or two directed queries, on every graph of the main enumeration with at most 3 nodes worth of
+	// ids (the first three ids), capacities as above.
+	{
+		ids3 := ids
+		if len(ids3) > 3 {
+			ids3 = ids3[:3]
+		}
+		var pairs3 []rEdge
+		for _, a := range ids3 {
+			for _, b := range ids3 {
+				pairs3 = append(pairs3, rEdge{a, b})
+			}
+		}
+		var seqsB [][]rQuery
+		for _, b0 := range ids3 {
+			for _, q1 := range ids3 {
+				for _, d1 := range []graph.Direction{graph.DirectionOutbound, graph.DirectionInbound} {
+					seqsB = append(seqsB, []rQuery{{b0, graph.DirectionBoth}, {q1, d1}})
+				}
+			}
+		}
+		for mask := 0; mask < 1<<uint(len(pairs3)); mask++ {
+			var edges []rEdge
+			for i, p := range pairs3 {
+				if mask&(1<<uint(i)) != 0 {
+					edges = append(edges, p)
+				}
+			}
+			checkGraph(ids3, edges, capacities, seqsB)
+		}
+	}
+	// FAMILY "dag5": all 1024 acyclic digraphs on 5 nodes whose edges go from a lower to a higher id (diamonds over a
+	// shared sink, forks, chains) x every sequence of two directed queries x capacities {1,2,3}: cache entries are evicted
+	// and recomputed while other cursors are in flight.
+	{
+		ids5 := []uint64{2, 4, 6, 8, 10}
+		var pairs5 []rEdge
+		for i, a := range ids5 {
+			for _, b := range ids5[i+1:] {
+				pairs5 = append(pairs5, rEdge{a, b})
+			}
+		}
+		var seqs5 [][]rQuery
+		for _, q0 := range ids5 {
+			for _, d0 := range []graph.Direction{graph.DirectionOutbound, graph.DirectionInbound} {
+				for _, q1 := range ids5 {
+					for _, d1 := range []graph.Direction{graph.DirectionOutbound, graph.DirectionInbound} {
+						seqs5 = append(seqs5, []rQuery{{q0, d0}, {q1, d1}})
+					}
+				}
+			}
+		}
+		for mask := 0; mask < 1<<uint(len(pairs5)); mask++ {
+			var edges []rEdge
+			for i, p := range pairs5 {
+				if mask&(1<<uint(i)) != 0 {
+					edges = append(edges, p)
+				}
+			}
+			checkGraph(ids5, edges, []int{1, 2, 3}, seqs5)
+		}
+	}
+	res := map[string]any{"name": "reach", "bound": fmt.Sprintf("all digraphs (self loops: %v) on %d nodes, query sequences up to length %d, capacities %v; + a DirectionBoth query before every directed query on all digraphs on 3 of the ids; + all 1024 forward-edge DAGs on 5 nodes x all pairs of directed queries x capacities 1,2,3", selfLoops, n, seqLen, capacities), "graphs": graphs, "cases": cases, "exhaustive": true, "failures": failures}
 	out, _ := json.Marshal(res)
 	fmt.Println("BOUNDED-RESULT " + string(out))
 	if len(failures) > 0 {
